@@ -412,6 +412,37 @@ def solve(ob, timeout_ms):
     return "unknown", time.time() - t0, (last, ), "z3"
 
 
+def solve_retry(ob, timeout_ms):
+    """last resort before an obligation is reported undecided: the same query with other solver seeds and twice the budget (a verdict
+    that depends on scheduling or on the machine's load must not flip a green check)"""
+    t0 = time.time()
+    axioms = relevant_axioms(ob)
+    for seed in (7, 23):
+        for ematch in (True, False):
+            s = z3.Solver()
+            s.set("timeout", int(2 * timeout_ms))
+            try:
+                s.set("random_seed", seed)
+            except Exception:
+                pass
+            if ematch:
+                s.set("auto_config", False)
+                s.set("smt.mbqi", False)
+            s.add(*axioms)
+            s.add(*ob.assumptions)
+            s.add(z3.Not(ob.goal))
+            r = s.check()
+            if r == z3.unsat:
+                return "unsat", time.time() - t0, None, "z3-retry"
+            if r == z3.sat and not ematch:
+                try:
+                    m = s.model()
+                except Exception:
+                    m = None
+                return "sat", time.time() - t0, m, "z3-retry"
+    return "unknown", time.time() - t0, None, "z3"
+
+
 _SPEC_REFS = {}
 
 
